@@ -1132,7 +1132,8 @@ def r12_4(q, R, cx, spec):
         # writer and reader may delegate to private functions of the crate (path construction, mapping-file predicate)
         skip = set(b["key"] for b in cx.roles.values() if b)
         wscopes = U12.with_helpers(q, dw, skip=skip)
-        wext = [H.const_name(n["args"][0]) for sc, _, _ in wscopes for n in H.walk(sc["body"]) if n.get("k") == "mcall" and n["name"] == "set_extension"]
+        wext = [H.const_name(n["args"][0]) for sc, _, _ in wscopes for n in H.walk(sc["body"])
+                if n.get("k") == "mcall" and n["name"] in ("set_extension", "with_extension") and len(n["args"]) == 1]
         rext = []
         for sc, _, _ in U12.with_helpers(q, dr, depth=1, skip=skip):
             if sc is not dr and sc.get("output") != "bool":
@@ -1397,10 +1398,17 @@ def r12_7(q, R, spec):
             got = {"File::create of": H.render(cr["args"][0])[:40], "built in": None}
             if bw is not None:
                 owner, lid, followed = bw
+                # the extension is put on the local by `x.set_extension(e)` or in its initialiser `<path>.with_extension(e)`
                 sets = [n for n in H.walk(owner["body"]) if n.get("k") == "mcall" and n["name"] == "set_extension"
                         and H.local_of(n["recv"]) and H.local_of(n["recv"])[0] == lid]
+                init = H.let_init_of(owner["body"], lid)
+                x = H.peel(init, tries=True) if init is not None else {}
+                while x.get("k") == "mcall":
+                    if x["name"] == "with_extension" and len(x["args"]) == 1:
+                        sets.append(x)
+                    x = H.peel(x["recv"], tries=True)
                 got["built in"] = owner["path"]
-                got["set_extension calls on it"] = len(sets)
+                got["set_extension / with_extension on it"] = len(sets)
                 if len(sets) == 1:
                     # unconditional where it stands, and every call that hands the path on is unconditional in its caller
                     conds = [c for c in H.path_conditions(owner["body"], sets[0]) if c[0] != "after-exit"]
@@ -1414,5 +1422,5 @@ def r12_7(q, R, spec):
                     got["conditions"] = [(k, H.render(c)[:50], p) for k, c, p in conds]
                     got["before File::create"] = before
         R.inst("R12.7", "dir-write:extension-on-every-file", ok, sp=dw["sp"],
-               expect="target.set_extension(MAPPING_EXTENSION) unconditionally, before File::create(&target)", got=got)
+               expect="target.set_extension(MAPPING_EXTENSION) (or <path>.with_extension(..)) unconditionally, before File::create(&target); the path may be built in a function of the crate", got=got)
     R.floor("R12.7", 4)
